@@ -2,6 +2,7 @@
 C08 — Paths yield the SSZ-spec generalized index and address the right node.
 -/
 import Rmk.Proofs.PathGindex
+import Rmk.Proofs.PathAddress
 namespace Rmk.C08
 open Rmk
 
@@ -29,6 +30,28 @@ theorem concat_assoc (xs ys : List Nat) (h : ∀ y ∈ ys, y ≠ 0) :
 theorem navigate_concat (n : Node) (a b : Nat) (ha : a ≠ 0) (hb : b ≠ 0) :
     getter n (concatGindices [a, b]) = (getter n a).bind (fun m => getter m b) :=
   getPath_concat n ha hb
+
+/-- For ANY tree that represents a value (whatever its history) and any key path that is valid for
+    the VALUE and stays in positions that have a node of their own: the static index is defined, the
+    backing node at that index represents the addressed sub-value, and so has its hash-tree-root. -/
+theorem addresses (H : Hash) (t : Ty) (v : Val) (n : Node) (keys : List Key) (t' : Ty) (v' : Val)
+    (hr : Impl.Repr H t v n) (hwf : t.wf = true) (hlim : ReprBasics.limitsOk t = true)
+    (hp : PathAddress.subValPath (some t) v keys = some (some t', v')) :
+    ∃ g m, Impl.pathGindex t keys = some g ∧ getter n g = some m ∧ Impl.Repr H t' v' m ∧
+      m.root H = Spec.htr H t' v' :=
+  PathAddress.path_addresses H t v n keys t' v' hr hwf hlim hp
+
+/-- …and when the last key addresses a PACKED element (basic element of a sequence, a bit, a byte),
+    the node at the index is the leaf chunk that holds the element, and the element decodes from it. -/
+theorem addresses_packed (H : Hash) (t : Ty) (v : Val) (n : Node) (keys : List Key)
+    (t' : Ty) (v' : Val) (i : Nat) (cs : List Chunk) (per : Nat) (ot : Option Ty) (x : Val)
+    (hr : Impl.Repr H t v n) (hwf : t.wf = true) (hlim : ReprBasics.limitsOk t = true)
+    (hpath : PathAddress.subValPath (some t) v keys = some (some t', v'))
+    (hp : PathAddress.packedChunks t' v' = some (cs, per))
+    (hs : PathAddress.subVal t' v' (.idx i) = some (ot, x)) :
+    ∃ g, ∃ hj : i / per < cs.length, Impl.pathGindex t (keys ++ [.idx i]) = some g ∧
+      getter n g = some (.leaf cs[i / per]) ∧ PathAddress.elemOfChunk H t' cs[i / per] i = some x :=
+  PathAddress.path_packed_addresses H t v n keys t' v' i cs per ot x hr hwf hlim hpath hp hs
 
 /-! Non-vacuity -/
 example : Impl.pathGindex (.container [.uint 8, .list (.uint 2) 100]) [.idx 1, .idx 37] = some 50 ∧
